@@ -35,7 +35,33 @@ def r1(run):
     run.floor("insert_frame calls in handle_import", len(ins), 1, b.sp)
     for c in ins:
         src = q.peel(c.arg(1))
-        ok = src[0] == "call" and src[1].fn in ("serde_json::de::from_slice", "serde_json::de::from_str", "serde_json::de::from_reader")
+        DE = ("serde_json::de::from_slice", "serde_json::de::from_str", "serde_json::de::from_reader")
+        ok = src[0] == "call" and src[1].fn in DE
+        if not ok:
+            # through a decoding helper: `from_slice(bytes).map_err(..)?` .. `Ok(frame)` .. `match parse(..) { Ok(frame) => .. }`:
+            # every origin of the value is the deserialiser's result (seen through `?`, `map_err` and Ok / Continue payloads)
+            def _is_de(o, depth=0):
+                o = q.peel(o)
+                if o[0] == "call" and o[1].fn in DE:
+                    return True
+                if depth > 6:
+                    return False
+                if o[0] == "call" and o[1].fn in ("core::result::Result::<T, E>::map_err", "core::ops::try_trait::Try::branch", "core::result::Result::<T, E>::unwrap",
+                                                  "core::result::Result::<T, E>::expect") and o[2]:
+                    return _is_de(o[2][0], depth + 1)
+                if o[0] == "field" and isinstance(o[1], tuple) and o[1][0] == "downcast" and o[1][2] in ("Ok", "Continue", "Some"):
+                    return _is_de(o[1][1], depth + 1)
+                if o[0] == "agg" and o[1].get("variant") in ("Ok", "Continue") and len(o[2]) == 1:
+                    return _is_de(o[2][0], depth + 1)
+                if o[0] == "phi":
+                    alts = [a for a in o[3] if not (q.peel(a)[0] == "agg" and q.peel(a)[1].get("variant") in ("Err", "Break"))]
+                    return bool(alts) and all(_is_de(a, depth + 1) for a in alts)
+                return False
+            try:
+                origins = q.origins(src)
+            except Exception:
+                origins = [src]
+            ok = bool(origins) and all(_is_de(o) for o in origins)
         run.ob(IMPORT + "|stored-as-parsed", ok, c.sp, "the frame handed to insert_frame is the deserialised request body itself: %s" % fmt(src)[:100], reason="import-rewrites-frame")
         l = q.root_local(b, c.args[1])
         b.defs()
